@@ -72,6 +72,14 @@ func randomC04Case(rng *rand.Rand) c04Case {
 	if rng.Intn(6) == 0 {
 		cs.ExtStop = 1 + rng.Intn(40)
 	}
+	if rng.Intn(8) == 0 {
+		// Stop() arrives while the loop is in the middle of a long wait with idle workers around:
+		// the hit whose wait was cut short must not start
+		cs.Pacer, cs.WaitNs = "const", time.Duration(6+rng.Intn(10))*time.Millisecond
+		cs.RespUs, cs.SlowCons, cs.Duration = 0, false, 0
+		cs.Workers, cs.Max = 2, 2+uint64(rng.Intn(3))
+		cs.StopAt, cs.ExtStop = 40, 2+rng.Intn(6)
+	}
 	return cs
 }
 
